@@ -198,7 +198,9 @@ def enrich_fromaudits(report_: richreports.report, atok) -> richreports.report:
     static analysis attributes found within an :obj:`ast` instance.
     """
     # pylint: disable=too-many-statements,too-many-branches
-    for a in ast.walk(atok.tree):
+    # Children are enriched before their ancestors: of two ranges that begin (or
+    # end) at the same character, the one enriched later becomes the outer element.
+    for a in reversed(list(ast.walk(atok.tree))):
         r = audits(a, "rules")
         t = audits(a, "types")
 
